@@ -161,15 +161,15 @@ def real_tokens(repo, sec, log):
     except OSError as e:
         raise UnitError("anchor lost: cannot read %s (%s)" % (sec["src"], e))
     try:
-        toks, span = rtok.extract(text, sec["spec"])
+        toks, span = rtok.extract(text, sec["spec"], with_attrs=sec["kv"].get("attrs") == "1")
     except rtok.ExtractError as e:
         raise UnitError(str(e))
     except ValueError as e:
         raise UnitError("anchor lost: %s" % e)
     ss = rtok.strs(toks)
     label = section_label(sec)
-    ss = rtok.drop_attrs(ss)
     kv = sec["kv"]
+    ss = rtok.drop_attrs(ss)
     if "subst" in kv:
         subst = {}
         for item in kv["subst"].split(";"):
@@ -218,7 +218,7 @@ def build(name, repo, outdir):
                 l0 = cur_line()
                 out.append("// ---- stub %s (contract proved in that unit)\n" % sec["ref"])
                 out.append(stub_text(sec["ref"]))
-                funcs.append({"label": sec["ref"], "kind": "stub", "lines": [l0, cur_line()]})
+                funcs.append({"label": sec["ref"], "kind": "stub", "lines": [l0, cur_line() - 1]})
             elif k == "extract":
                 label = section_label(sec)
                 ss, span = real_tokens(repo, sec, rewrites)
@@ -231,7 +231,7 @@ def build(name, repo, outdir):
                            "CHANGED: %d edit(s), %d displaced annotation(s)" % (info["edits"], info["displaced"])))
                 out.append(woven if woven.endswith("\n") else woven + "\n")
                 funcs.append({"label": label, "kind": "extract", "src": sec["src"], "spec": sec["spec"],
-                              "lines": [l0, cur_line()], "info": info, "src_span": list(span),
+                              "lines": [l0, cur_line() - 1], "info": info, "src_span": list(span),
                               "props": sec["kv"].get("props", "").split(",") if sec["kv"].get("props") else [],
                               "item_kind": "type" if sec["spec"].split(" :: ")[-1].split()[0] in ("struct", "enum", "type", "const") else "fn"})
 
